@@ -7,6 +7,7 @@ Both are replaced from outside; nothing in /repo is modified.
 import hashlib
 import os
 import struct
+import threading
 import types
 
 _real_urandom = os.urandom
@@ -33,12 +34,24 @@ class Det(object):
     """Per-endpoint DRBGs and a controllable clock."""
 
     def __init__(self):
+        self._tl = threading.local()
         self.seed = b"unseeded"
         self.streams = {}
         self.current = "main"
         self.now = 1700000000.0
         self.offsets = {}
         self.installed = False
+
+    # ``current`` names the endpoint random/clock reads are attributed to;
+    # it is per thread so the blocking-API runs (two threads) stay
+    # deterministic as well
+    @property
+    def current(self):
+        return getattr(self._tl, "cur", "main")
+
+    @current.setter
+    def current(self, value):
+        self._tl.cur = value
 
     # -- randomness -------------------------------------------------------
     def reseed(self, *parts):
